@@ -134,6 +134,17 @@ def codes():
 def shard(ctx):
     thorough = ctx.tier == "thorough"
     drive(ctx, herd_case(codes()), lambda c: run(ctx, c), 900 if thorough else 40, shrink=thorough, tag="ledger")
+    # the world aggregate is the only row with every species (e.g. both camel herds and camelids): always run it
+    from vlib.harness import Violation
+    fixed = [("WOR", st_, f, g) for st_ in herd.STRATEGIES for f, g in ((0.0, 0.0), (0.5, 0.5), (2.0, 2.0))]
+    for i, (code, st_, f, g) in enumerate(fixed):
+        if i % ctx.nshards != ctx.shard:
+            continue
+        ctx.count()
+        try:
+            run(ctx, dict(code=code, strategy=st_, n=36, feed_mult=[f] * 36, grass_mult=[g] * 36))
+        except Violation as v:
+            ctx.record_violation(v)
     if thorough:
         from vlib.harness import Violation
         cs = codes()
